@@ -59,7 +59,7 @@ CLAIMED = {
         text="Kernel-checked: writer invariant (strictly increasing video DTS / non-decreasing audio PTS, every non-newest sample carries the exact next-minus-this delta, deltas fit 32 bits, "
              "|pts-dts| fits i32) holds initially and is preserved by every API call; the durations written are exactly the consecutive DTS differences followed by the previous interval; telescoping: "
              "the decode time of sample k is dts_k - dts_0 for every k (no drift), also stated over histories of calls (C03_history_video/_audio: the times read back from the file are the submitted times of the accepted calls); rle tables expand back exactly; composition offsets are exactly pts-dts and ctts is present iff one is non-zero; "
-             "mdhd holds the exact sum of durations and finalize refuses sums above 2^32-1; accepted API calls queue F64.ticks of their arguments. Correspondence on expanded stts/ctts/mdhd incl. long runs.",
+             "mdhd holds the exact sum of durations and finalize refuses sums above 2^32-1; accepted API calls queue F64.ticks of their arguments. Correspondence on expanded stts/ctts/mdhd incl. long runs. SampleTables::from_samples is TRANSLATED from src/muxer/mp4.rs on every run (tools/rs2lean_tables.py) and proved equal to the model's Tables.ofSamples (Props/C03Generated.lean).",
         note=TB + "tick = (secs*90000.0).round() as modelled by the soft-float (validated against the FPU by the correspondence run).",
         technique="Lean 4 proof (state-machine invariant by induction over calls, telescoping sums) + correspondence check",
         ref="DESIGN.md section 5 C03"),
